@@ -234,17 +234,23 @@ Definition step_with (sp : sigtab -> list stmt -> domcfg -> env -> env -> slots 
                else sp (g_tab D) (snd p) (g_doms D (fst p)) cur nx st) (g_procs D) st1 in
   settle (fuel_of D) D (freeze (g_nsig D) (s_next st2)).
 
-Definition sync_code (tab : sigtab) (ss : list stmt) (c : domcfg) (old new : env) (st : slots) : slots :=
-  if fired c old new then sync_process tab ss (d_rst c) st else st.
-Definition step := step_with sync_code.
-
-(* SPEC process (what the property text and the emitted flip-flops do): user statements only at the active
-   clock edge; a reset rise of an async domain without a clock edge only loads the initial values *)
+(* a reset rise of an async domain without a clock edge only loads the initial values (this is also the SPEC
+   process: what the property text and the emitted flip-flops do) *)
 Definition reset_only (tab : sigtab) (ss : list stmt) (st : slots) : slots :=
   let m := stmts_mask ss in
   {| s_curr := s_curr st;
      s_next := fun i => if (m i =? 0) || sd_reset_less (tab i) then s_next st i
                         else slot_update (s_next st i) (sd_init (tab i)) (update_mask (sd_shape (tab i)) (m i)) |}.
+(* the compiled process (sim/_pyrtl.py after "a rising asynchronous reset alone only loads reset values"):
+   woken by the clock edge (clock_edge_waker sets process.clk_edge) it runs the statements and the reset block;
+   woken by the rise of an asynchronous reset alone it executes `slots[i].update(init, mask)` for every driven
+   non-reset-less signal and returns *)
+Definition sync_code (tab : sigtab) (ss : list stmt) (c : domcfg) (old new : env) (st : slots) : slots :=
+  if clk_edge c old new then sync_process tab ss (d_rst c) st
+  else if rst_rise c old new then reset_only tab ss st
+  else st.
+Definition step := step_with sync_code.
+
 Definition sync_spec (tab : sigtab) (ss : list stmt) (c : domcfg) (old new : env) (st : slots) : slots :=
   if clk_edge c old new then sync_process tab ss (d_rst c) st
   else if rst_rise c old new then reset_only tab ss st
@@ -303,8 +309,9 @@ Definition step_gen (F : env -> env -> slots -> dom * list stmt -> slots) (D : d
 Definition ctl_proc (tab : sigtab) (doms : domtab) (en_of rs_of : dom -> env -> bool)
   (cur nx : env) (st : slots) (p : dom * list stmt) : slots :=
   if Nat.eqb (fst p) 0 then comb_process tab (snd p) st
-  else if fired (doms (fst p)) cur nx
+  else if clk_edge (doms (fst p)) cur nx
        then sync_ctl tab (snd p) (d_rst (doms (fst p))) (en_of (fst p) nx) (rs_of (fst p) nx) st
+       else if rst_rise (doms (fst p)) cur nx then reset_only tab (snd p) st
        else st.
 Definition step_ctl (en_of rs_of : dom -> env -> bool) (D : design) : event -> env -> env :=
   step_gen (ctl_proc (g_tab D) (g_doms D) en_of rs_of) D.
@@ -419,7 +426,7 @@ Definition mem_doms (m : meminst) : list dom :=
   filter (fun d => negb (Nat.eqb d 0)) (uniq [] (map wp_dom (mi_wports m) ++ map rp_dom (mi_rports m))).
 
 Definition mem_delta2 (D : design) (cur nx : env) (m : meminst) (rw : rows) (st : slots) : slots * wqueue :=
-  fold_left (fun sq d => if fired (g_doms D d) cur nx
+  fold_left (fun sq d => if clk_edge (g_doms D d) cur nx        (* a reset rise alone runs no memory port *)
                          then mem_sync (g_tab D) m d rw sq else sq)
             (mem_doms m) (mem_comb (g_tab D) rw st m, []).
 
